@@ -330,6 +330,13 @@ func cellsC12(thorough bool) []Cfg {
 			}
 		}
 	}
+	// a start-up stage whose rate x duration is not a whole number, followed by another stage: the next stage
+	// begins when the stage's duration is over, not at its last token
+	for _, st := range []Sched{comp(cst(0.5, 3000), once(2)), comp(once(1), cst(2, 1250), once(1))} {
+		for _, ammo := range []int{-1, 2} {
+			out = append(out, Cfg{Prop: "C12", Startup: st, RPS: cst(2, 6000), Ammo: ammo, ShotMs: []int64{0}, Bound: 1})
+		}
+	}
 	// a provider that queues all its ammo at once (its Run returns at t=0): later startup tokens still
 	// become instances as long as ammo and RPS tokens remain
 	for _, st := range []Sched{comp(once(1), cst(0, 1000), once(1)), istep(1, 3, 1, 500), cst(2, 1500)} {
